@@ -293,6 +293,29 @@ int main(int argc, char **argv)
 				check_dec(s, n);
 			}
 		}
+	} else if (!strcmp(a.mode, "dict")) {
+		/* alphabet text of every short length (and a few long ones) with one multi-character affix from a dictionary of the spellings a
+		 * lenient decoder might want to understand: URL escapes of '=', '+', '/', line ends, HTML/JSON escapes, quotes, BOM */
+		static const char *DICT[] = { "%3D", "%3D%3D", "%3d", "%3d%3d", "%2B", "%2F", "%2b", "%2f", "%2D", "%5F", "%20", "%0A", "%0D%0A", "%", "%3", "%3D=", "=%3D",
+			"%253D", "&#61;", "&amp;", "&equals;", "\\n", "\\u003d", "\\/", "\n", "\r\n", "\r", " ", "\t", "\v", "\f", "  ", ".", ",", ":", ";", "'", "\"", "`", "~", "*", "!", "$", "(",
+			")", "@", "#", "?", "&", "|", "<", ">", "[", "]", "{", "}", "^", "\\", "\x7f", "\x80", "\xff", "\xc2\xa0", "\xef\xbb\xbf", "\xe2\x80\x8b", "\xe2\x80\xa8",
+			"-----", "b'", "0x", "=.", ".=", "=\n", "==\n", "\n=", "= ", " =" };
+		static const char A64[] = "ABCDEFGHIJKLMNOPQRSTUVWXYZabcdefghijklmnopqrstuvwxyz0123456789-_";
+		static const int LENS[] = { 0, 1, 2, 3, 4, 5, 6, 7, 8, 9, 10, 11, 12, 16, 17, 18, 19, 63, 64, 65, 66, 255, 256, 257, 258, 1022, 1023, 1024, 1025, 4094, 4095, 4096, 4097 };
+		long idx = 0;
+		for (size_t di = 0; di < sizeof(DICT) / sizeof(DICT[0]); di++)
+			for (size_t li = 0; li < sizeof(LENS) / sizeof(LENS[0]); li++)
+				for (int place = 0; place < 3; place++, idx++) {
+					char s[4200];
+					size_t n = (size_t)LENS[li], dl = strlen(DICT[di]), cut = place == 0 ? n : place == 1 ? 0 : n / 2, w = 0;
+					if (!vh_mine(&a, idx)) continue;
+					vh_rng_seed(&r, a.seed, 9000 + (uint64_t)idx);
+					if ((idx & 0xff) == 0) vh_case_begin(idx, "\"mode\":\"dict\",\"affix\":%zu,\"len\":%zu,\"place\":%d", di, n, place);
+					for (size_t j = 0; j < cut; j++) s[w++] = A64[vh_below(&r, 64)];
+					memcpy(s + w, DICT[di], dl); w += dl;
+					for (size_t j = cut; j < n; j++) s[w++] = A64[vh_below(&r, 64)];
+					check_dec(s, w);
+				}
 	} else if (!strcmp(a.mode, "cold")) {
 		/* the process's very first encodes/decodes, made by several threads at once (tables built on first use must not be
 		 * visible half-built): every result is compared with the reference codec */
